@@ -562,14 +562,7 @@ func Check() *core.Check {
 			if tier == "thorough" {
 				bound = 2
 			}
-			return []*core.Family{
-				{
-					Name:   "map-order-exploration",
-					Desc:   fmt.Sprintf("%d workloads (authorize / batch-authorize a set whose policies fail in two record fields at once; marshal; decode-then-re-encode of policy, policy set, entity and schema documents) x every execution with <=%d deviating map-iteration orders", len(ws), bound),
-					N:      int64(len(ws)),
-					Serial: true,
-					Run:    func(t *core.T, i int64) { exploreWorkload(t, ws[i], bound) },
-				},
+			fams := []*core.Family{
 				{
 					Name:   "insertion-orders",
 					Desc:   "every permutation of 1..4 policies added to a PolicySet and rotations of the entity insertion order: identical decision, diagnostics and encodings",
@@ -578,6 +571,29 @@ func Check() *core.Check {
 					Run:    insertionOrders,
 				},
 			}
+			if tier == "thorough" {
+				// every workload completely at one deviation first; two deviations afterwards, each
+				// workload with an equal share of what is left of the budget
+				fams = append(fams, &core.Family{
+					Name:   "map-order-exploration-1-deviation",
+					Desc:   fmt.Sprintf("%d workloads x every execution in which at most 1 map iteration (any site, any position) deviates from sorted order", len(ws)),
+					N:      int64(len(ws)),
+					Serial: true,
+					Run:    func(t *core.T, i int64) { exploreWorkload(t, ws[i], 1) },
+				})
+			}
+			return append(fams, []*core.Family{
+				{
+					Name:   "map-order-exploration",
+					Desc:   fmt.Sprintf("%d workloads (authorize / batch-authorize a set whose policies fail in two record fields at once; marshal; decode-then-re-encode of policy, policy set, entity and schema documents) x every execution with <=%d deviating map-iteration orders", len(ws), bound),
+					N:      int64(len(ws)),
+					Serial: true,
+					Run: func(t *core.T, i int64) {
+						t.ShareBudget(int64(len(ws)) - i)
+						exploreWorkload(t, ws[i], bound)
+					},
+				},
+			}...)
 		},
 	}
 }
